@@ -17,17 +17,17 @@ namespace PyRates.Solver
 /-- **Rows of the storage loop.**  With `steps = m·s`, `m` rows allocated and sampling every `s > 0` steps, the loop
 terminates without error, writes every row (no garbage memory is returned), and row `k` is the state after `k·s` steps;
 in particular row 0 is the initial state. -/
-theorem C03_solve_rows (step : Nat → Vec → Vec) (m s : Nat) (hs : 0 < s) (y0 : Vec) :
-    solve step (m * s) m s y0 = .ok ((List.range m).map (fun k => some (iter step 0 (k * s) y0))) := by
+theorem C03_solve_rows (g : Bool) (step : Nat → Vec → Vec) (m s : Nat) (hs : 0 < s) (y0 : Vec) :
+    solve g step (m * s) m s y0 = .ok ((List.range m).map (fun k => some (iter step 0 (k * s) y0))) := by
   unfold solve
-  rw [loop_spec step s m hs (m * s) 0 y0 0 (List.replicate m none) (by omega) (by simp) (by omega) (by omega)]
+  rw [loop_spec g step s m hs (m * s) 0 y0 0 (List.replicate m none) (by omega) (by simp) (by omega) (by omega)]
   simp
 
 /-- `_solve_euler` rows are the Euler iterates, the j-th step called with `t = t0 + j`. -/
-theorem C03_euler_rows (f : Field) (dt : Rat) (t0 m s : Nat) (hs : 0 < s) (y0 : Vec) :
-    solve (eulerStepCode f dt t0) (m * s) m s y0
+theorem C03_euler_rows (g : Bool) (f : Field) (dt : Rat) (t0 m s : Nat) (hs : 0 < s) (y0 : Vec) :
+    solve g (eulerStepCode f dt t0) (m * s) m s y0
       = .ok ((List.range m).map (fun k => some (iter (eulerStepCode f dt t0) 0 (k * s) y0))) :=
-  C03_solve_rows _ m s hs y0
+  C03_solve_rows g _ m s hs y0
 
 /-- The coded Heun step is the textbook Heun step whenever the solver copies the returned right-hand side
 or the vector field returns a fresh array. -/
@@ -37,12 +37,12 @@ theorem C03_heunStepCode_eq (f : Field) (inPlace copyRhs : Bool) (h : copyRhs = 
 
 /-- `_solve_heun` as it is in the current source (`Tables.heunCopiesRhs` is regenerated from `_solve_heun`'s text) returns the
 Heun iterates for both vector-field conventions. -/
-theorem C03_heun_rows (f : Field) (inPlace : Bool) (dt : Rat) (t0 m s : Nat) (hs : 0 < s) (y0 : Vec) :
-    solve (heunStepCode f inPlace Tables.heunCopiesRhs dt t0) (m * s) m s y0
+theorem C03_heun_rows (g : Bool) (f : Field) (inPlace : Bool) (dt : Rat) (t0 m s : Nat) (hs : 0 < s) (y0 : Vec) :
+    solve g (heunStepCode f inPlace Tables.heunCopiesRhs dt t0) (m * s) m s y0
       = .ok ((List.range m).map (fun k => some (iter (heunStep f dt t0) 0 (k * s) y0))) := by
   have : heunStepCode f inPlace Tables.heunCopiesRhs dt t0 = heunStep f dt t0 := by
     funext i y; exact C03_heunStepCode_eq f inPlace _ (Or.inl (by decide)) dt t0 i y
-  rw [this]; exact C03_solve_rows _ m s hs y0
+  rw [this]; exact C03_solve_rows g _ m s hs y0
 
 /-- **The jax scheme** (`lax.scan` over `store_steps` blocks of `store_step` steps) returns the same rows for *every*
 `store_steps`/`store_step` — there is no relation between `T` and the step sizes it depends on. -/
@@ -52,9 +52,9 @@ theorem C03_scan_rows (step : Nat → Vec → Vec) (m s : Nat) (y0 : Vec) :
   simpa [scanSolve, iter] using this
 
 /-- hence both schemes agree whenever the numpy scheme's guard holds -/
-theorem C03_scan_eq_loop (step : Nat → Vec → Vec) (m s : Nat) (hs : 0 < s) (y0 : Vec) :
-    solve step (m * s) m s y0 = .ok ((scanSolve step m s y0).map some) := by
-  rw [C03_solve_rows step m s hs, C03_scan_rows]; simp
+theorem C03_scan_eq_loop (g : Bool) (step : Nat → Vec → Vec) (m s : Nat) (hs : 0 < s) (y0 : Vec) :
+    solve g step (m * s) m s y0 = .ok ((scanSolve step m s y0).map some) := by
+  rw [C03_solve_rows g step m s hs, C03_scan_rows]; simp
 
 /-- Witness for why the copy matters: with an in-place vector field and no copy the coded step is *not* Heun's
 (`x' = -x/2`, `dt = 1`, `x = 1`: 3/4 instead of 5/8). -/
@@ -93,8 +93,8 @@ theorem C03_time_index_linspace_counterexample :
 /-- **End-to-end shape of a fixed-step run.**  For sampling an integer multiple `s ≥ 1` of the step and `T` a multiple `m`
 of the sampling step, the result is exactly the list of `(k·dts, state after k·s steps)` for `k < m`, with the rows whose
 time is below the cutoff dropped and the order kept. -/
-theorem C03_run_spec (step : Rat → Nat → Vec → Vec) (dt cutoff : Rat) (m s : Nat) (hs : 0 < s) (hdt : dt ≠ 0) (y0 : Vec) :
-    runFixed Tables.timeAxisKind step { T := (m : Rat) * ((s : Rat) * dt), dt := dt, dts := (s : Rat) * dt, cutoff := cutoff } y0
+theorem C03_run_spec (g : Bool) (step : Rat → Nat → Vec → Vec) (dt cutoff : Rat) (m s : Nat) (hs : 0 < s) (hdt : dt ≠ 0) (y0 : Vec) :
+    runFixed g Tables.timeAxisKind step { T := (m : Rat) * ((s : Rat) * dt), dt := dt, dts := (s : Rat) * dt, cutoff := cutoff } y0
       = .ok (((List.range m).map (fun (k : Nat) => ((k : Rat) * ((s : Rat) * dt), some (iter (step dt) 0 (k * s) y0)))).filter
               (fun r => cutoff ≤ r.1)) := by
   have hsq : (s : Rat) ≠ 0 := by
@@ -107,21 +107,57 @@ theorem C03_run_spec (step : Rat → Nat → Vec → Vec) (dt cutoff : Rat) (m s
   have e3 : (s : Rat) * dt / dt = (s : Rat) := by grind
   unfold runFixed
   simp only [hdt, hdts, or_self, if_false, e1, e2, e3, pyRound_nat]
-  rw [C03_solve_rows _ m s hs y0, C03_time_index, e2, pyRound_nat]
+  rw [C03_solve_rows g _ m s hs y0, C03_time_index, e2, pyRound_nat]
   show (if _ then _ else _) = _
   simp only [List.length_map, List.length_range, ne_eq, not_true_eq_false, if_false]
   rw [List.zip_map']
   rfl
 
-/-- Outside the guard the code fails loudly rather than returning garbage: `T = 5, dt = 1, dts = 2` stores three rows
-into a buffer of `round(5/2) = 2` (half-even) rows — an IndexError. -/
-theorem C03_nonmultiple_T_raises :
-    runFixed Tables.timeAxisKind (fun _ _ y => y) { T := 5, dt := 1, dts := 2, cutoff := 0 } [1] = .error .indexError := by
+/-- **Rows of the guarded storage loop for every `steps`, `store_steps`, `store_step > 0`** (no relation between `T` and the step sizes
+is assumed): the loop never raises, row `k` is the state after `k·s` steps whenever the integration reaches that instant and is
+never-written memory otherwise. -/
+theorem C03_guarded_rows (step : Nat → Vec → Vec) (steps m s : Nat) (hs : 0 < s) (y0 : Vec) :
+    solve true step steps m s y0
+      = .ok ((List.range m).map (fun k => if k * s < steps then some (iter step 0 (k * s) y0) else none)) := by
+  unfold solve
+  rw [loop_guarded_spec step s m steps hs steps 0 y0 0 (List.replicate m none) (by omega) (by simp) (by omega) (by omega) (by omega) (by simp)]
+  simp [rowAt]
+
+/-- in particular no garbage row is returned as soon as the last allocated row is due before the end: `(m-1)·s < steps` -/
+theorem C03_guarded_no_garbage (step : Nat → Vec → Vec) (steps m s : Nat) (hs : 0 < s) (y0 : Vec) (h : ∀ k, k < m → k * s < steps) :
+    solve true step steps m s y0 = .ok ((List.range m).map (fun k => some (iter step 0 (k * s) y0))) := by
+  rw [C03_guarded_rows step steps m s hs y0]
+  congr 1
+  apply List.map_congr_left
+  intro k hk
+  have := h k (by simpa using hk)
+  simp [this]
+
+/-- the storage condition found in the current source is the guarded one -/
+theorem C03_store_guarded : Tables.storeGuarded = true := by decide
+
+/-- hence `_solve_euler`/`_solve_heun` as they are in the current source never raise on the record and return, for **every** `T`, step
+and sampling step, the states at the sampling instants they reach (`round(T/dts)` rows, the number its time index has) -/
+theorem C03_current_rows (step : Nat → Vec → Vec) (steps m s : Nat) (hs : 0 < s) (y0 : Vec) :
+    solve Tables.storeGuarded step steps m s y0
+      = .ok ((List.range m).map (fun k => if k * s < steps then some (iter step 0 (k * s) y0) else none)) := by
+  rw [C03_store_guarded]; exact C03_guarded_rows step steps m s hs y0
+
+/-- Outside the hypothesis `T = m·dts` the two forms of the storage condition differ.  Without the guard the loop fails loudly rather than
+returning garbage: `T = 5, dt = 1, dts = 2` stores three rows into a buffer of `round(5/2) = 2` (half-even) rows — an IndexError.  With the guard
+(the form found in the current source, `Tables.storeGuarded`) the run returns exactly the `round(T/dts)` rows that its time index announces. -/
+theorem C03_nonmultiple_T_unguarded_raises :
+    runFixed false Tables.timeAxisKind (fun _ _ y => y) { T := 5, dt := 1, dts := 2, cutoff := 0 } [1] = .error .indexError := by
+  decide +kernel
+
+theorem C03_nonmultiple_T_rows :
+    runFixed Tables.storeGuarded Tables.timeAxisKind (fun dt => eulerStepCode (fun _ y => y) dt 0) { T := 5, dt := 1, dts := 2, cutoff := 0 } [1]
+      = .ok [(0, some [1]), (2, some [4])] := by
   decide +kernel
 
 /-- Non-vacuity: a concrete run (`x' = -x/2 + t`, Euler, `dt = 1/2`, `dts = 1`, `T = 3`, `cutoff = 1`). -/
 example :
-    runFixed Tables.timeAxisKind (fun dt => eulerStepCode (fun t y => y.map (fun x => -x/2 + (t : Rat))) dt 0)
+    runFixed Tables.storeGuarded Tables.timeAxisKind (fun dt => eulerStepCode (fun t y => y.map (fun x => -x/2 + (t : Rat))) dt 0)
       { T := 3, dt := 1/2, dts := 1, cutoff := 1 } [1]
     = .ok [(1, some [17/16]), (2, some [729/256])] := by decide +kernel
 
